@@ -228,33 +228,81 @@ func newWorld(r *rand.Rand) *world {
 	return w
 }
 
+// errCrashed: the (simulated) process died inside a constructor
+var errCrashed = errors.New("crashed during start-up")
+
+// open starts both stores.  The flat files are wrapped at the moment the
+// constructors open them, so that the durable steps of the start-up
+// reconciliation count (and can be killed) like those of any other operation
+// while w.inOp is set.
 func (w *world) open() (err error) {
+	var opened []*faultFile
+	var rawDB walletdb.DB
 	defer func() {
+		headerfs.VerifOpenFile = nil
 		if x := recover(); x != nil {
-			err = fmt.Errorf("panic: %v", x)
+			if _, ok := x.(crashSig); ok {
+				err = errCrashed
+			} else {
+				err = fmt.Errorf("panic: %v", x)
+			}
+			// the process is gone: drop every handle it held
+			for _, f := range opened {
+				f.File.Close()
+			}
+			if rawDB != nil {
+				rawDB.Close()
+			}
+			w.db, w.bs, w.fs = nil, nil, nil
 		}
 	}()
+	headerfs.VerifOpenFile = func(f headerfs.File) headerfs.File {
+		ff := &faultFile{File: f, w: w}
+		opened = append(opened, ff)
+		return ff
+	}
 	db, err := walletdb.Open("bdb", filepath.Join(w.dir, "n.db"), false, 10*time.Second, false)
 	if err != nil {
-		return err
+		// the very first start: no database yet
+		db, err = walletdb.Create("bdb", filepath.Join(w.dir, "n.db"), false, 10*time.Second, false)
+		if err != nil {
+			return err
+		}
 	}
+	rawDB = db
 	w.db = &faultDB{DB: db, w: w}
 	w.bs, err = headerfs.NewBlockHeaderStore(w.dir, w.db, params)
 	if err != nil {
+		for _, f := range opened {
+			f.File.Close()
+		}
 		db.Close()
 		w.db = nil
 		return fmt.Errorf("block store: %w", err)
 	}
 	w.fs, err = headerfs.NewFilterHeaderStore(w.dir, w.db, headerfs.RegularFilter, params, nil)
 	if err != nil {
-		headerfs.VerifCloseFile(w.bs)
+		for _, f := range opened {
+			f.File.Close()
+		}
 		db.Close()
 		w.db = nil
 		return fmt.Errorf("filter store: %w", err)
 	}
-	headerfs.VerifWrapFile(w.bs, func(f headerfs.File) headerfs.File { return &faultFile{File: f, w: w} })
-	headerfs.VerifWrapFile(w.fs, func(f headerfs.File) headerfs.File { return &faultFile{File: f, w: w} })
 	return nil
+}
+
+// startUnder runs a start under the armed crash: "crashed", "ok" or "err".
+func (w *world) startUnder() string {
+	w.step = 0
+	w.inOp = true
+	err := w.open()
+	w.inOp = false
+	w.faultKind, w.faultStep, w.crashStep, w.crashAfter = "", -1, -1, false
+	if errors.Is(err, errCrashed) {
+		return "crashed"
+	}
+	return errClass(err)
 }
 
 // legacy moves every k-th indexed block hash (from a random offset) out of its
@@ -583,26 +631,7 @@ func (g *gen) mutate() bool {
 	x := g.r.Intn(100)
 	switch {
 	case g.crashes && x < 35:
-		w.crashStep = g.r.Intn(4)
-		switch g.r.Intn(6) {
-		case 0:
-			w.crashTorn = 0
-		case 1:
-			w.crashTorn = 1 + g.r.Intn(31)
-		case 2:
-			w.crashTorn = 32 * (1 + g.r.Intn(3))
-		case 3:
-			w.crashTorn = 80 * (1 + g.r.Intn(3))
-		case 4:
-			w.crashTorn = 80*(1+g.r.Intn(2)) + 1 + g.r.Intn(79)
-		default:
-			w.crashTorn = 1 << 20 // the whole write
-		}
-		armed = fmt.Sprintf("crash %d %d", w.crashStep, w.crashTorn)
-		w.crashAfter = g.r.Intn(3) == 0
-		if w.crashAfter {
-			armed = fmt.Sprintf("crashafter %d", w.crashStep)
-		}
+		armed = g.pickCrash(4)
 	case g.faults && x < 30:
 		kinds := []string{"shortwrite", "writeerr", "truncerr", "syncerr", "dberr", "dbcommit", "dbcommit"}
 		w.faultKind = kinds[g.r.Intn(len(kinds))]
@@ -710,14 +739,25 @@ func (g *gen) mutate() bool {
 		op = fmt.Sprintf("rollto %d", h)
 		obs = w.run(func() string { return w.rollTo(h) })
 	default:
+		// a restart; under an armed crash the start itself is killed
 		op = "reopen"
 		w.close()
-		obs = errClass(w.open())
+		// (an I/O error during start-up makes the constructors fail, which no property forbids: only crashes are injected here)
+		w.faultKind, w.faultStep = "", -1
+		obs = w.startUnder()
 	}
 	w.faultKind, w.faultStep, w.crashStep, w.crashAfter = "", -1, -1, false
 	g.emit(op, obs)
 	if obs == "crashed" {
 		w.close()
+		// now and then the restart is killed as well (up to three times in a row)
+		for k := 0; k < 3 && g.crashes && g.r.Intn(4) == 0; k++ {
+			g.armCrash(6)
+			again := w.startUnder()
+			g.emit("reopen", again)
+			g.t.Hit("store.restart-killed." + again)
+			w.close()
+		}
 		err := w.open()
 		g.emit("reopen", errClass(err))
 		if err != nil {
@@ -740,6 +780,38 @@ func (g *gen) mutate() bool {
 		return false
 	}
 	return true
+}
+
+// pickCrash arms a crash before (or right after) one of the first n durable
+// steps of the next operation and returns the directive describing it.
+func (g *gen) pickCrash(n int) string {
+	w := g.w
+	w.crashStep = g.r.Intn(n)
+	switch g.r.Intn(6) {
+	case 0:
+		w.crashTorn = 0
+	case 1:
+		w.crashTorn = 1 + g.r.Intn(31)
+	case 2:
+		w.crashTorn = 32 * (1 + g.r.Intn(3))
+	case 3:
+		w.crashTorn = 80 * (1 + g.r.Intn(3))
+	case 4:
+		w.crashTorn = 80*(1+g.r.Intn(2)) + 1 + g.r.Intn(79)
+	default:
+		w.crashTorn = 1 << 20 // the whole write
+	}
+	armed := fmt.Sprintf("crash %d %d", w.crashStep, w.crashTorn)
+	w.crashAfter = g.r.Intn(3) == 0
+	if w.crashAfter {
+		armed = fmt.Sprintf("crashafter %d", w.crashStep)
+	}
+	return armed
+}
+
+// armCrash arms a crash and emits its directive.
+func (g *gen) armCrash(n int) {
+	g.t.Line("%s", g.pickCrash(n))
 }
 
 func minInt(a, b int) int {
@@ -816,79 +888,62 @@ func (g *gen) reads() {
 	}
 }
 
-// InitCases: the very first start in an empty data directory, killed before the
-// n-th index transaction of the two constructors (1: bucket creation, 2: the
-// block store's genesis entry, 3: the filter store's bucket check, 4: the
-// filter store's genesis tip), then restarted.
+// InitCases: the very first start in an empty data directory, killed before
+// (or, for a file write, within) one of its durable steps, restarted, now and
+// then killed again, and finally left alone.
 func InitCases(t *tr.W, r *rand.Rand) {
-	for n := 1; n <= 5; n++ {
-		// m > 0: the restart after the first crash is itself killed before its m-th index transaction
-		for m := 0; m <= 4; m++ {
-			initCase(t, r, n, m)
+	torn := []int{0, 1, 31, 32, 33, 79, 80, 81, 1 << 20}
+	n := 0
+	for step := 0; step <= 6; step++ {
+		for _, tl := range torn {
+			if tl != 0 && step != 1 && step != 4 {
+				continue // only the two genesis writes can be torn
+			}
+			initCase(t, r, step, tl, n)
+			n++
 		}
 	}
 }
 
-func initCase(t *tr.W, r *rand.Rand, n, m int) {
-	{
-		d, err := os.MkdirTemp("", "storeinit")
-		if err != nil {
-			panic(err)
-		}
-		w := &world{dir: d, bid: map[chainhash.Hash]int{}, fid: map[chainhash.Hash]int{}, r: r,
-			crashStep: -1, faultStep: -1}
-		g := params.GenesisBlock.Header
-		w.bid[g.BlockHash()] = 0
-		w.bhdr = append(w.bhdr, &g)
-		t.Case("store init")
-		start := func(k int) (obs string) {
-			db, err := walletdb.Create("bdb", filepath.Join(d, "n.db"), false, 10*time.Second, false)
-			if err != nil {
-				return "err-create"
-			}
-			defer db.Close()
-			fdb := &faultDB{DB: db, w: w}
-			w.inOp, w.step, w.crashStep = true, 0, k-1
-			defer func() {
-				w.inOp, w.crashStep = false, -1
-				if x := recover(); x != nil {
-					if _, ok := x.(crashSig); ok {
-						obs = "crashed"
-						return
-					}
-					obs = fmt.Sprintf("PANIC %v", x)
-				}
-			}()
-			b, err := headerfs.NewBlockHeaderStore(d, fdb, params)
-			if err != nil {
-				return "err"
-			}
-			defer headerfs.VerifCloseFile(b)
-			f, err := headerfs.NewFilterHeaderStore(d, fdb, headerfs.RegularFilter, params, nil)
-			if err != nil {
-				return "err"
-			}
-			headerfs.VerifCloseFile(f)
-			return "ok"
-		}
-		t.Op(fmt.Sprintf("initcrash %d", n), start(n))
-		if m > 0 {
-			t.Op(fmt.Sprintf("initagain %d", m), start(m))
-		}
-		err = w.open()
-		t.Op("reopen", errClass(err))
-		if err == nil {
-			if fh, _, err := w.fs.ChainTip(); err == nil {
-				w.fid[*fh] = 0
-				w.fhs = append(w.fhs, *fh)
-			}
-			t.Op("dump", w.dump())
-		} else {
-			t.Line("# reopen error: %v", err)
-		}
-		t.Hit("store.initcrash." + errClass(err))
-		w.destroy()
+func initCase(t *tr.W, r *rand.Rand, step, tornLen, n int) {
+	d, err := os.MkdirTemp("", "storeinit")
+	if err != nil {
+		panic(err)
 	}
+	w := &world{dir: d, bid: map[chainhash.Hash]int{}, fid: map[chainhash.Hash]int{}, r: r,
+		crashStep: -1, faultStep: -1}
+	defer w.destroy()
+	gh := params.GenesisBlock.Header
+	w.bid[gh.BlockHash()] = 0
+	w.bhdr = append(w.bhdr, &gh)
+	g := &gen{w: w, r: r, t: t, crashes: true}
+	t.Case("store init")
+	w.crashStep, w.crashTorn = step, tornLen
+	t.Line("crash %d %d", step, tornLen)
+	obs := w.startUnder()
+	g.emit("reopen", obs)
+	t.Hit("store.first-start." + obs)
+	w.close()
+	// the restart is killed as well, at a step that varies with the case
+	for k := 0; obs == "crashed" && k < n%3; k++ {
+		w.crashStep, w.crashTorn = (n/3+k)%7, []int{0, 17, 40, 1 << 20}[(n+k)%4]
+		t.Line("crash %d %d", w.crashStep, w.crashTorn)
+		again := w.startUnder()
+		g.emit("reopen", again)
+		t.Hit("store.first-restart." + again)
+		w.close()
+	}
+	err = w.open()
+	g.emit("reopen", errClass(err))
+	if err != nil {
+		t.Line("# reopen error: %v", err)
+		return
+	}
+	if fh, _, err := w.fs.ChainTip(); err == nil {
+		w.fid[*fh] = 0
+		w.fhs = append(w.fhs, *fh)
+	}
+	g.emit("dump", w.dump())
 }
 
 // Cases emits n cases.  mode: "plain" (no faults), "faults", "crashes".
